@@ -68,3 +68,13 @@ Definition write_result_spec (success : bool) (exception_name : string) (raw : N
   if success then Some None
   else if String.eqb exception_name "Unknown" then Some (Some raw)
   else option_map Some (standard_exception_code exception_name).
+
+(* ---------- plain data ("unit ids, ranges, values, timeouts and configuration pass through unchanged") ---------- *)
+(* which C-side field must feed which Rust-side field / constructor parameter *)
+Local Open Scope string_scope.
+Definition field_spec : list (string * string * string) :=
+  [("Indexed<bool>", "index", "index"); ("Indexed<bool>", "value", "value");
+   ("Indexed<u16>", "index", "index"); ("Indexed<u16>", "value", "value");
+   ("ffi::AddressRange", "start", "start"); ("ffi::AddressRange", "count", "count");
+   ("RequestParam", "id", "unit_id"); ("RequestParam", "response_timeout", "timeout");
+   ("doubling_retry_strategy", "min", "min_delay"); ("doubling_retry_strategy", "max", "max_delay")].
